@@ -253,7 +253,7 @@ APPEND["C09"] = (" The two budgets of MaxRetries (attempts per reconnection; res
                  "cut the environment answers each attempt refused / transient status / 200 empty / 200 with a retry-only event (bare, `event: close`+retry as the SDK server "
                  "writes it, with the resumed id) / 200 with the rest - every sequence for MaxRetries 1-2, the grid 0..MaxRetries+1 fruitless resumptions x 1..MaxRetries "
                  "failed attempts at every position for MaxRetries 2, 3 and (thorough) the default 5 with the option unset, against a server that is stuck once the script "
-                 "ends; WithinBudgetsNeverFails and BoundedRetries judge them (only a new id is progress); budget-grid coverage is asserted (a missing cell is a machinery error).")
+                 "ends; WithinBudgetsNeverFails and BoundedRetries judge them (only a new id is progress); budget-grid coverage is asserted (a missing cell is a machinery error). A reconnect may also be answered with a non-transient status whose body is a JSON-RPC error object (id of the pending call / another id / null): every call pending on that stream must still end (CleanFailure).")
 APPEND["C12"] = (" Client-side histories have the tools/list listing split into request / server answer / delivery per page, list_changed delivered at any point, and the "
                  "cache generation counter transcribed (HeaderMirrorHist.tla): every history <= 6 (thorough <= 8) steps is model-checked (a cold-cache what-if without "
                  "generation bump must fail), the racy informed ones are replayed on the real client and the real stateless server with gates in the RoundTripper; Informed = "
